@@ -181,14 +181,14 @@ type varKind struct {
 }
 
 var varKinds = []varKind{
-	{"%s", []string{"1", "ab", "x.y", "a-b", "é", "12", "A_b", "%20", "a b", "a?b", "?", "what?", "a#b"}, []string{""}},
+	{"%s", []string{"1", "ab", "x.y", "a-b", "é", "12", "A_b", "%20", "a b", "a?b", "?", "what?", "a#b", ".", "..", "...", ".a"}, []string{""}},
 	{"%s:\\d+", []string{"1", "007", "42"}, []string{"", "a", "1a", "-1"}},
 	{"%s:[1-9][0-9]*", []string{"1", "10", "999"}, []string{"0", "01", "a"}},
 	{"%s:[a-z-]+", []string{"a", "a-b", "zz"}, []string{"A", "a1", ""}},
 	{"%s:[1-9]{1,2}", []string{"1", "12", "99"}, []string{"0", "123", "a"}},
 	{"%s: \\w+ ", []string{"a_1", "Z", "09"}, []string{"a-b", "", "é"}},
 	{"%s:(?:en|fr|de)", []string{"en", "fr", "de"}, []string{"it", "e", "enx"}},
-	{"%s:.+", []string{"a", "a/b", "x.y/z"}, []string{""}},
+	{"%s:.+", []string{"a", "a/b", "x.y/z", "css/../site.css", "a/./b", ".."}, []string{""}},
 	{"%s:[^.-]+", []string{"a", "ab", "a_b", "é"}, []string{"a.b", "", "a-b"}},
 	{"%s:[^-]{2}", []string{"ab", "12"}, []string{"a", "abc", "a-"}},
 	{"%s:\\d{4}", []string{"2024", "0001"}, []string{"202", "20245", "abcd"}},
@@ -1008,7 +1008,17 @@ func (e routeEngine) Run(ops []string) (ans []string, oracle []string) {
 					w := httptest.NewRecorder()
 					if req, err := http.NewRequest("GET", (&url.URL{Path: built}).String(), nil); err == nil {
 						im.r.ServeHTTP(w, req)
-						if !strings.HasPrefix(w.Body.String(), fmt.Sprintf("R%d:", expect)) {
+						// the handler reports its route and, sorted by name, every parameter it got
+						wk := make([]string, 0, len(want))
+						for k := range want {
+							wk = append(wk, k)
+						}
+						sort.Strings(wk)
+						wantBody := fmt.Sprintf("R%d:", expect)
+						for _, k := range wk {
+							wantBody += k + "=" + want[k] + ";"
+						}
+						if w.Body.String() != wantBody {
 							ok = false
 						}
 					}
